@@ -98,6 +98,9 @@ struct World
   std::string vkind, vdetail;
   bool in_exec{false};
   bool latest_only{false}; // probe mode: loads read the latest message, no choice
+  bool allow_unordered_writers{false}; // harnesses whose locations legitimately have concurrent writers (read-modify-write
+                                       // counters): every write then records its position in the modification order in
+                                       // the writer's history, which keeps the history-based state key exact
   int nthreads{3};
   int deviations{0};
 };
@@ -236,7 +239,7 @@ inline void do_store(int id, uint64_t v, std::memory_order o)
     // the history-based state key needs the modification order to be a function of the threads' own histories: true if
     // every store is by the writer of the previous message or happens-after it (no two concurrent writers)
     Msg const& last = L.mo.back();
-    if (last.tid != W->cur && !last.clk.leq(T.clk))
+    if (last.tid != W->cur && !last.clk.leq(T.clk) && !W->allow_unordered_writers)
       fail("harness-assumption-broken", "two writers of one atomic location are not ordered by happens-before (a node is used without synchronising with its construction / publication)");
     L.writer_after_init = W->cur;
   }
@@ -247,7 +250,50 @@ inline void do_store(int id, uint64_t v, std::memory_order o)
   if (rel) m.relview = T.view;
   L.mo.push_back(std::move(m));
   ++T.ops;
-  T.hist += "s;";
+  T.hist += W->allow_unordered_writers ? "s@" + std::to_string(L.mo.size() - 1) + ";" : std::string("s;");
+}
+
+// read-modify-write: reads the last message of the modification order (atomicity) and writes right after it; a relaxed
+// RMW continues the release sequence of the message it read.  The index read is part of the thread's history, so the
+// modification order stays a function of the histories although several threads write.
+template <typename F>
+inline uint64_t do_rmw(int id, F f, std::memory_order o)
+{
+  sched_point();
+  if (W->abort_exec && W->in_exec && W->cur != 0) yield_to_main();
+  check_access(id, "read-modify-write");
+  Loc& L = W->locs[static_cast<size_t>(id)];
+  Thread& T = W->th[W->cur];
+  int const idx = static_cast<int>(L.mo.size()) - 1;
+  Msg const prev = L.mo[static_cast<size_t>(idx)];
+  bool const acq = (o == std::memory_order_acquire || o == std::memory_order_seq_cst || o == std::memory_order_acq_rel || o == std::memory_order_consume);
+  bool const rel = (o == std::memory_order_release || o == std::memory_order_seq_cst || o == std::memory_order_acq_rel);
+  T.view[static_cast<size_t>(id)] = idx;
+  if (acq && prev.rel)
+  {
+    for (size_t k = 0; k < prev.relview.size(); ++k)
+      if (prev.relview[k] > T.view[k]) T.view[k] = prev.relview[k];
+    T.clk.join(prev.clk);
+  }
+  T.clk.c[W->cur]++;
+  Msg m{f(prev.val), W->cur, T.clk, rel || prev.rel, {}};
+  T.view[static_cast<size_t>(id)] = idx + 1;
+  if (rel)
+  {
+    m.relview = T.view;
+    for (size_t k = 0; k < prev.relview.size() && prev.rel; ++k)
+      if (prev.relview[k] > m.relview[k]) m.relview[k] = prev.relview[k];
+    if (prev.rel) m.clk.join(prev.clk);
+  }
+  else if (prev.rel)
+  {
+    m.relview = prev.relview; // release sequence carried through a relaxed RMW
+    m.clk = prev.clk;
+  }
+  L.mo.push_back(std::move(m));
+  ++T.ops;
+  T.hist += "r" + std::to_string(id) + ":" + std::to_string(idx) + ";";
+  return prev.val;
 }
 
 inline uint64_t do_load(int id, std::memory_order o)
@@ -363,6 +409,21 @@ public:
   void store(T v, std::memory_order o = std::memory_order_seq_cst) noexcept { wmm::do_store(_id, enc(v), o); }
   T load(std::memory_order o = std::memory_order_seq_cst) const noexcept { return dec(wmm::do_load(_id, o)); }
   operator T() const noexcept { return load(); }
+  T exchange(T v, std::memory_order o = std::memory_order_seq_cst) noexcept
+  {
+    uint64_t const nv = enc(v);
+    return dec(wmm::do_rmw(_id, [nv](uint64_t) { return nv; }, o));
+  }
+  template <typename U = T>
+  T fetch_add(U d, std::memory_order o = std::memory_order_seq_cst) noexcept
+  {
+    return dec(wmm::do_rmw(_id, [d](uint64_t old) { return enc(static_cast<T>(dec(old) + static_cast<T>(d))); }, o));
+  }
+  template <typename U = T>
+  T fetch_sub(U d, std::memory_order o = std::memory_order_seq_cst) noexcept
+  {
+    return dec(wmm::do_rmw(_id, [d](uint64_t old) { return enc(static_cast<T>(dec(old) - static_cast<T>(d))); }, o));
+  }
   int vf_id() const { return _id; }
 
 private:
